@@ -116,7 +116,7 @@ func (i *InvalidationIndex) InvalidateByLabels(ctx context.Context, labels ...st
 
 	cnt := 0
 
-	for name, labeledKeys := range i.labeledKeysByName {
+	for name, labeledKeys := range labeledKeysByName {
 		n, err := i.invalidateByLabels(ctx, labeledKeys, deleters[name], labels...)
 		cnt += n
 
